@@ -839,11 +839,13 @@ where
 
 /// Parse the referrals from the supplied BER-encoded sequence.
 pub fn parse_refs(t: StructureTag) -> Vec<String> {
-    t.expect_constructed()
-        .expect("referrals")
+    try_parse_refs(t).expect("referrals")
+}
+
+/// Like `parse_refs()`, but returns `None` instead of panicking on malformed input.
+pub(crate) fn try_parse_refs(t: StructureTag) -> Option<Vec<String>> {
+    t.expect_constructed()?
         .into_iter()
-        .map(|t| t.expect_primitive().expect("octet string"))
-        .map(String::from_utf8)
-        .map(|s| s.expect("uri"))
+        .map(|t| t.expect_primitive().and_then(|v| String::from_utf8(v).ok()))
         .collect()
 }
